@@ -235,11 +235,11 @@ def run_config(frontend, prefix, principal, flagseq):
                         uid = "discovery-user-data@example.com"
                         ev = urllib.parse.urljoin(cal, "userdata.ics")
                         p = http(srv.port, "PUT", ev, [("Content-Type", "text/calendar")], gamma.ics_event(uid, "keep me"))
-                        if p.status in (201, 204):
+                        if p.status in range(200, 300):
                             user = {"event": ev, "uid": uid}
                             c2 = urllib.parse.urljoin(cal, "../second/")
                             m = http(srv.port, "MKCALENDAR", c2)
-                            if m.status == 201:
+                            if m.status in range(200, 300):
                                 user["cal2"] = c2
             finally:
                 srv.stop()
